@@ -75,6 +75,7 @@ def Avp.len : Avp → Nat | .mk _ _ _ _ l _ _ => l
 def Avp.padding : Avp → Nat | .mk _ _ _ _ _ p _ => p
 def Avp.padded (a : Avp) : Nat := a.len + a.padding
 def Avp.code : Avp → UInt32 | .mk c _ _ _ _ _ _ => c
+def Avp.vendor : Avp → Option UInt32 | .mk _ v _ _ _ _ _ => v
 def Avp.value : Avp → Value | .mk _ _ _ _ _ _ v => v
 
 def lenList : List Avp → Nat
